@@ -84,8 +84,8 @@ Print Assumptions C19_draw_rows_bounded.
 (** (c) over every history of the single bar, without any proviso: after every op
     last_line_count = rows of the maximal fitting prefix of the last painted frame <= H *)
 Theorem C19_rows_bounded : forall (W H : N) (s0 : sys) (t0 : term) (h : list (N * op)),
-  sb_initial s0 -> hist_ok h ->
-  let st := sb_run W H (s0, ghost0, t0) h in
+  sb_initial s0 -> hist_ok W H s0 (ghost_for t0) h ->
+  let st := sb_run W H (s0, ghost_for t0, t0) h in
   exists b tg, s_bars (fst (fst st)) = [b] /\ b_target b = TTerm tg
     /\ tt_n tg = bar_rows (fitting_prefix W H (g_frame (snd (fst st)))) W
     /\ tt_n tg <= H.
@@ -100,9 +100,9 @@ Print Assumptions C19_rows_bounded.
 Theorem C19_erase_exact :
   forall (W H : N) (pre : list (list N)) (s0 : sys) (t0 : term) (h : list (N * op)),
   1 <= W -> 1 <= H ->
-  sb_initial s0 -> ready (N.to_nat W) (N.to_nat H) pre t0 -> hist_ok h -> NoTextCut W H s0 h ->
-  let g := snd (fst (sb_run W H (s0, ghost0, t0) h)) in
-  let t := snd (sb_run W H (s0, ghost0, t0) h) in
+  sb_initial s0 -> ready (N.to_nat W) (N.to_nat H) pre t0 -> hist_ok W H s0 (ghost_for t0) h -> NoTextCut W H s0 h ->
+  let g := snd (fst (sb_run W H (s0, ghost_for t0, t0) h)) in
+  let t := snd (sb_run W H (s0, ghost_for t0, t0) h) in
   exists k, screen (N.to_nat W) t
             = map (pad (N.to_nat W)) (expected_rows_cut W H pre g) ++ repeat (repeat SP (N.to_nat W)) k.
 Proof. intros W H pre s0 t0 h HW HH. exact (c19_erase_exact W H HW HH pre s0 t0 h). Qed.
@@ -127,13 +127,13 @@ Definition cut_h : list (N * op) :=
   [(1000000000, OTick 0); (2000000000, OPrintln 0 (t "x")); (3000000000, OPrintln 0 (t "y"))].
 
 Theorem C19_text_cut_refuted :
-  sb_initial cut_s0 /\ hist_ok cut_h /\ ~ NoTextCut 3 1 cut_s0 cut_h
+  sb_initial cut_s0 /\ hist_ok 3 1 cut_s0 ghost0 cut_h /\ ~ NoTextCut 3 1 cut_s0 cut_h
   /\ let st := sb_run 3 1 (cut_s0, ghost0, term_init) cut_h in
      g_log (snd (fst st)) = [t "x"; t "y"]
      /\ expected_rows_cut 3 1 [] (snd (fst st)) = [t "x"; t "y"]
      /\ all_rows (snd st) = [t "xy"].
 Proof.
-  split; [eexists; eexists; repeat split|]. split; [repeat constructor|].
+  split; [eexists; eexists; repeat split|]. split; [vm_compute; reflexivity|].
   split; [vm_compute; discriminate|]. vm_compute. repeat split.
 Qed.
 Print Assumptions C19_text_cut_refuted.
@@ -180,9 +180,9 @@ Definition tall_h : list (N * op) :=
    (4000000000, OInc 0 1)].
 
 Example C19_hypotheses_satisfiable :
-  sb_initial tall_s0 /\ hist_ok tall_h /\ NoTextCut 2 3 tall_s0 tall_h /\ ~ Fits 2 3 tall_s0 tall_h.
+  sb_initial tall_s0 /\ hist_ok 2 3 tall_s0 ghost0 tall_h /\ NoTextCut 2 3 tall_s0 tall_h /\ ~ Fits 2 3 tall_s0 tall_h.
 Proof.
-  split; [eexists; eexists; repeat split|]. split; [repeat constructor|].
+  split; [eexists; eexists; repeat split|]. split; [vm_compute; reflexivity|].
   split; [vm_compute; reflexivity | vm_compute; discriminate].
 Qed.
 
